@@ -9,9 +9,19 @@ namespace BVM
 def PClockOnly : Ev → Prop
   | .cb k _ _ _ => k = .clock
   | .cbExit k _ => k = .clock
+  | .store _ _ _ _ => False
+  | .deliver _ _ _ => False
   | .clockRead _ => True
+  | .assertFail => False
+  | .oob => False
+  | .ret _ _ _ => False
+  | .tsWrite _ _ => False
   | .traceCall _ _ => True
-  | _ => False
+  | .recDone _ _ _ => False
+  | .discard _ => False
+  | .fullAnswer _ => False
+  | .opened _ => False
+  | .closed _ _ _ => False
 
 /-- everything an accessor can return, plus the bookkeeping the tracer keeps for the packet -/
 structure Observable where
